@@ -22,7 +22,7 @@ type genCfg struct {
 	maxDepth  int
 	clean     bool // names from the clean pool only
 	noInfo    bool // no meta / validation / description (plain structure)
-	lossy     bool // also Docs and ContentType, which Dup does not copy (witness stream)
+	lossy     bool // also ContentType, which ResultTypeExpr.Dup does not copy (witness stream)
 	maxUsers  int
 	maxFields int
 }
@@ -126,7 +126,7 @@ func (g *gen) att(depth int, outside []int) *Att {
 		if g.r.Chance(1, 5) {
 			a.Desc = vh.Pick(g.r, []string{"desc", "the thing", "x"})
 		}
-		if g.cfg.lossy && g.r.Chance(1, 6) {
+		if g.r.Chance(1, 10) {
 			a.Docs = "http://docs/" + vh.Pick(g.r, []string{"a", "b"})
 		}
 		if g.r.Chance(1, 10) {
